@@ -5,5 +5,10 @@ PY="${VERIF_PYTHON:-/venv/bin/python}"
 if ! "$PY" -c "import hypothesis" 2>/dev/null; then
     "$PY" -m pip install --no-index --find-links /opt/veriftools/wheels hypothesis
 fi
+HERE="$(cd "$(dirname "$0")" && pwd)"
+# atheris (coverage-guided stages) lives beside the checks, not in /venv
+if ! PYTHONPATH="$HERE/.deps" "$PY" -c "import atheris" 2>/dev/null; then
+    "$PY" -m pip install -q --no-index --find-links /opt/veriftools/wheels --target "$HERE/.deps" atheris
+fi
 "$PY" -c "import hypothesis, pysam, gffutils; print('hypothesis', hypothesis.__version__, 'pysam', pysam.__version__)"
 mkdir -p "$(dirname "$0")/evidence"
